@@ -63,7 +63,10 @@ def model_check(ctx, descs):
     hits = _tlc.definition_hits(rc.stdout, "Dataflow", text, ["RoundStep", "Scatter", "GatherRecv", "DotRecv", "ExecRound", "JobDone",
                                                                "JobFail", "Emit", "XRecv", "ExecEnd", "Deploy", "SchedConn", "CloseAll"])
     r.coverage = {k: [v, v] for k, v in hits.items()}
-    files["MC_DF.cfg"] = dt.cfg(liveness=True, invariants=[])
+    # temporal formulation (ExecutorEnds, EveryStepEnds under weak fairness) on the smaller networks; on all networks
+    # the same claim is the invariant QuiescentMeansEnded of the run above
+    small = [d for d in descs if len(d["steps"]) <= 5][:40]
+    files = {"MC_DF.tla": dt.constants_module(small), "MC_DF.cfg": dt.cfg(liveness=True, invariants=[])}
     r2 = ctx.tlc("Dataflow", "MC_DF", "MC_DF.cfg", files=files, timeout=2400, workers=4, count=False)
     if not r2.ok:
         return r2
